@@ -86,7 +86,9 @@ def run(seed, ids):
         sh(["git", "-C", REPO, "checkout", "--", "."])
         vlib.run_translator()
     caught = [p for p, r in results.items() if r["rc"] == 1 and r["violation"]]
-    return dict(caught_by=caught, results=results, scratch=scratch)
+    with_input = [p for p in caught if "no-failing-input-found" not in results[p]["violation"][0]]
+    return dict(caught_by=caught, caught_with_failing_input=with_input,
+                caught_tie_only=[p for p in caught if p not in with_input], results=results, scratch=scratch)
 
 
 if __name__ == "__main__":
